@@ -6,6 +6,7 @@ package fakes
 import (
 	"errors"
 	"fmt"
+	"regexp"
 	"sort"
 	"strconv"
 	"strings"
@@ -231,18 +232,53 @@ func (d *DDB) Query(table, keyCond string, names map[string]string, values map[s
 	if !ok {
 		return nil, nil, fmt.Errorf("ResourceNotFoundException: table %q", table)
 	}
-	parts := strings.Split(keyCond, "=")
-	if len(parts) != 2 {
+	// key condition: partitionKey = :v [AND sortKey <op> :w], op one of = < <= > >= (documented forms;
+	// BETWEEN and begins_with are not understood and reported as such)
+	clauses := splitKeyCondition(keyCond)
+	if len(clauses) == 0 || len(clauses) > 2 {
 		return nil, nil, HarnessError{"key condition " + keyCond}
 	}
-	n, v := strings.TrimSpace(parts[0]), strings.TrimSpace(parts[1])
-	attr, ok := names[n]
-	if !ok {
-		attr = n
+	resolve := func(n string) string {
+		if a, ok := names[n]; ok {
+			return a
+		}
+		return n
 	}
-	val, ok := values[v]
-	if attr != "Id" || !ok || val.Kind != 'S' {
-		return nil, nil, HarnessError{"key condition must be Id = :value, got " + keyCond}
+	if clauses[0].op != "=" {
+		return nil, nil, HarnessError{"key condition " + keyCond}
+	}
+	val, ok := values[clauses[0].rhs]
+	if resolve(clauses[0].lhs) != "Id" || !ok || val.Kind != 'S' {
+		return nil, nil, HarnessError{"key condition must start with Id = :value, got " + keyCond}
+	}
+	sortOK := func(int64) bool { return true }
+	if len(clauses) == 2 {
+		c := clauses[1]
+		bound, ok := values[c.rhs]
+		if resolve(c.lhs) != "Created" || !ok {
+			return nil, nil, HarnessError{"key condition " + keyCond}
+		}
+		if bound.Kind != 'N' {
+			return nil, nil, fmt.Errorf("ValidationException: One or more parameter values were invalid: Condition parameter type does not match schema type")
+		}
+		b, err := strconv.ParseInt(bound.S, 10, 64)
+		if err != nil {
+			return nil, nil, HarnessError{"sort key bound " + bound.S}
+		}
+		switch c.op {
+		case "=":
+			sortOK = func(x int64) bool { return x == b }
+		case "<":
+			sortOK = func(x int64) bool { return x < b }
+		case "<=":
+			sortOK = func(x int64) bool { return x <= b }
+		case ">":
+			sortOK = func(x int64) bool { return x > b }
+		case ">=":
+			sortOK = func(x int64) bool { return x >= b }
+		default:
+			return nil, nil, HarnessError{"key condition " + keyCond}
+		}
 	}
 	view := tbl
 	if !consistent {
@@ -252,7 +288,9 @@ func (d *DDB) Query(table, keyCond string, names map[string]string, values map[s
 	var cs []int64
 	for c := range view[val.S] {
 		x, _ := strconv.ParseInt(c, 10, 64)
-		cs = append(cs, x)
+		if sortOK(x) {
+			cs = append(cs, x)
+		}
 	}
 	sort.Slice(cs, func(i, j int) bool {
 		if forward {
@@ -300,4 +338,23 @@ func (d *DDB) PutRaw(table string, it Item) {
 	}
 	d.primary[table][id][c] = it.clone()
 	d.writes = append(d.writes, ddbWrite{table, it.clone()})
+}
+
+type keyClause struct{ lhs, op, rhs string }
+
+// splitKeyCondition parses "a = :x", "(a = :x) AND (b <= :y)", "a = :x and b > :y".
+func splitKeyCondition(kc string) []keyClause {
+	var out []keyClause
+	for _, part := range regexp.MustCompile(`(?i)\s+and\s+`).Split(strings.TrimSpace(kc), -1) {
+		part = strings.TrimSpace(part)
+		for strings.HasPrefix(part, "(") && strings.HasSuffix(part, ")") {
+			part = strings.TrimSpace(part[1 : len(part)-1])
+		}
+		m := regexp.MustCompile(`^(\S+?)\s*(<=|>=|=|<|>)\s*(\S+)$`).FindStringSubmatch(part)
+		if m == nil {
+			return nil
+		}
+		out = append(out, keyClause{m[1], m[2], m[3]})
+	}
+	return out
 }
